@@ -119,6 +119,14 @@ def run(ctx):
     from harness.pydrv import lz
     exe = mtlib.driver("tsan")
     files = make_files(ctx)
+    import subprocess
+    ovh_exe = build.cprog("outbuf_size", [os.path.join(os.path.dirname(os.path.dirname(os.path.abspath(__file__))), "harness/cdrv/outbuf_size.c")], "plain")
+    outovh = int(subprocess.run([ovh_exe], stdout=subprocess.PIPE, text=True).stdout.strip())
+    from harness.pydrv import coders
+    fmem = lz.L().lzma_raw_decoder_memusage(coders.lzma2_filters(0))     # every generated Block uses LZMA2 preset 0
+    for _, _, lay in files:
+        for b in lay["blocks"]:
+            b["mem"] = int(fmem + b["insz"])
     wd = ctx.workdir
     nseeds = 3 if ctx.quick else 14
     groups = []     # (file, nw, timeout, failfast) -> list of runs
@@ -133,14 +141,23 @@ def run(ctx):
             settings.append((2, 1, 0))          # timeout = 1 ms
         if fi % 3 == 1 or not ctx.quick:
             settings.append((2, 0, lz.FAIL_FAST))
-        for (nw, to, fl) in settings:
+        # memlimit_threading: room for exactly one Block at a time / not even one (forces direct mode)
+        sized = [b for b in lay["blocks"] if b["hdr"] != "direct"]
+        memsets = [(nw, to, fl, None) for (nw, to, fl) in settings]
+        if sized and (fi % 2 == 0 or not ctx.quick):
+            need = max(b["mem"] + b["outsz"] + outovh for b in sized)
+            memsets.append((3, 0, 0, need + 1000))
+            memsets.append((2, 0, 0, need - 1))
+        settings = memsets
+        for (nw, to, fl, memt) in settings:
             fl = fl | cflag
-            g = dict(file=name, path=path, lay=lay, nw=nw, timeout=to, flags=fl, runs=[], st=(st_ret, st_out))
+            g = dict(file=name, path=path, lay=lay, nw=nw, timeout=to, flags=fl, runs=[], st=(st_ret, st_out), memt=memt)
             groups.append(g)
             for k in range(nseeds):
                 seed = ctx.seed * 1000 + k + 17 * len(jobs)
                 endafter = -1 if k % 3 != 2 else ctx.rng.randint(1, 6)
                 p = dict(threads=nw, timeout=to, flags=fl, seed=seed, perturb=[0, 25, 60][k % 3],
+                         **({"memthr": memt} if memt else {}),
                          endafter=endafter, slicing=0 if (k == 0) else 1,
                          cpus=[0, 2, 1][k % 3] if not ctx.quick else 0)
                 if k == 0:
@@ -162,7 +179,7 @@ def run(ctx):
     with cf.ThreadPoolExecutor(8) as ex:
         results = list(ex.map(exec_job, jobs))
     for (g, params), res, out in results:
-        label = "%s:T%d:to%d:fl%d:seed%d" % (g["file"], g["nw"], g["timeout"], g["flags"], params["seed"])
+        label = "%s:T%d:to%d:fl%d:m%s:seed%d" % (g["file"], g["nw"], g["timeout"], g["flags"], g["memt"], params["seed"])
         ctx.case(key=label)
         for key, rep in mtlib.tsan_keys(res["stderr"]):
             ctx.violation(key, rep, dict(kind="run", params=params, file=g["file"]))
@@ -206,13 +223,14 @@ def run(ctx):
         cfgline = dict(e="Config", nw=g["nw"], hdrsz=lay["hdrsz"], tailsz=lay["tailsz"], tailok=lay["tailok"],
                        filelen=lay["filelen"], timeout=bool(g["timeout"]), failfast=bool(g["flags"] & 32),
                        copies=lay.get("copies", 1), pad=lay.get("pad", 0), concat=bool(lay.get("concat")),
+                       memt=int(g["memt"]) if g["memt"] else 2000000000, outovh=outovh,
                        blocks=[{k: b[k] for k in ("hdr", "bh", "insz", "outsz", "errAt", "mem", "corrupt")} for b in lay["blocks"]])
         sub = type(ctx)(ctx.pid, ctx.tier, ctx.seed)      # private accounting, merged below
         sub.workdir = os.path.join(ctx.workdir, "g%d" % id(g)); os.makedirs(sub.workdir, exist_ok=True)
         sub.findings = ctx.findings
         rej = tracev.validate(sub, "TraceMtDecoder", g["runs"],
                               lambda label, e, i: "trace:%s:%s" % (label.split(":")[0], e.get("e")),
-                              prelude=[cfgline], name="TraceMtDecoder.%s.%d.%d.%d" % (g["file"], g["nw"], g["timeout"], g["flags"]),
+                              prelude=[cfgline], name="TraceMtDecoder.%s.%d.%d.%d.%s" % (g["file"], g["nw"], g["timeout"], g["flags"], g["memt"]),
                               maxl=True)
         return g, sub
     with cf.ThreadPoolExecutor(5) as ex:
